@@ -1,4 +1,5 @@
 import bisect
+import copy
 import datetime
 import decimal
 import abc
@@ -187,6 +188,15 @@ class RepeatedValueWrapper(MutableSequence[_V], Generic[_M, _V]):
             i for i, item in enumerate(self._raw_wrapper) if isinstance(item, self._raw_type)]
         self._raw_wrapper.register_update_handler(
             _RepeatedValueWrapperUpdateHandler(raw_wrapper, raw_type, self._raw_indexes))
+
+    def __deepcopy__(self, memo: dict[int, Any]) -> Self:
+        # A view of a copy of the list: it has to follow that copy's updates like the original follows its own list.
+        view = copy.copy(self)
+        view._raw_wrapper = copy.deepcopy(self._raw_wrapper, memo)
+        view._raw_indexes = list(self._raw_indexes)
+        view._raw_wrapper.register_update_handler(
+            _RepeatedValueWrapperUpdateHandler(view._raw_wrapper, view._raw_type, view._raw_indexes))
+        return view
 
     def _check_type(self, v: Any) -> TypeGuard[_M]:
         return isinstance(v, self._raw_type)
